@@ -85,7 +85,8 @@ class KillPoints:
         if self.yield_cfg is not None:
             if self.rnd.random() < self.yield_cfg.get("p", 0.05):
                 self.real_sleep(self.rnd.random() * self.yield_cfg.get("max_s", 0.002))
-            return None
+            if self.at is None:
+                return None
         if self.mode == "line":
             self.fire(("L", os.path.basename(code.co_filename), line))
         return None
